@@ -222,6 +222,113 @@ Proof.
   specialize (E p Hin). apply Nat.leb_le in E. lia.
 Qed.
 
+(* ------------------------------------------------------------------ train_loop = train *)
+Lemma py_index_nonneg_nat n i : (i < n)%nat -> py_index n (Z.of_nat i) = Some i.
+Proof.
+  intros H. unfold py_index.
+  replace ((0 <=? Z.of_nat i) && (Z.of_nat i <? Z.of_nat n))%bool with true
+    by (symmetry; apply Bool.andb_true_iff; split; [apply Z.leb_le|apply Z.ltb_lt]; lia).
+  rewrite Nat2Z.id. reflexivity.
+Qed.
+
+Lemma for_res_app {A B} (f : A -> B -> res A) l1 l2 a :
+  for_res f (l1 ++ l2) a = bind (for_res f l1 a) (for_res f l2).
+Proof.
+  revert a; induction l1 as [|x l1 IH]; intros a; [reflexivity|].
+  cbn [app for_res]. destruct (f a x) as [a1|e]; cbn [bind]; [apply IH|reflexivity].
+Qed.
+
+(* a loop whose every step succeeds under an invariant is the fold of the pure step *)
+Lemma for_res_ok {A B} (Inv : A -> Prop) (f : A -> B -> res A) (g : A -> B -> A) l :
+  (forall a x, Inv a -> In x l -> f a x = Ok (g a x) /\ Inv (g a x)) ->
+  forall a, Inv a -> for_res f l a = Ok (fold_left g l a) /\ Inv (fold_left g l a).
+Proof.
+  induction l as [|x l IH]; intros H a Ha; [split; [reflexivity|exact Ha]|].
+  cbn [for_res fold_left]. destruct (H a x Ha (or_introl eq_refl)) as [E Hi]. rewrite E. cbn [bind].
+  apply IH; [|exact Hi]. intros a' x' Ha' Hin. apply H; [exact Ha'|right; exact Hin].
+Qed.
+
+Lemma py_get_nat {A} (l : list A) i d : (i < length l)%nat -> py_get l (Z.of_nat i) = Ok (nth i l d).
+Proof.
+  intros H. unfold py_get. rewrite py_index_nonneg_nat by exact H.
+  rewrite (nth_error_nth' l d H). reflexivity.
+Qed.
+
+Lemma mset_py_ok N W i j f : shape N W -> (i < N)%nat -> (j < N)%nat -> mset_py W i j f = Ok (mupd W i j f).
+Proof.
+  intros [HL HR] Hi Hj. unfold mset_py.
+  rewrite (nth_error_nth' W []) by lia. rewrite (nth_error_nth' (nth i W []) 0) by (rewrite HR; lia). reflexivity.
+Qed.
+(* row 0, column N of an N x N matrix does not exist (N = 0: there is no row 0) *)
+Lemma mset_py_fail N W f : shape N W -> mset_py W 0 N f = Raise IndexError.
+Proof.
+  intros [HL HR]. unfold mset_py. destruct N as [|N].
+  - destruct W; [reflexivity|discriminate].
+  - rewrite (nth_error_nth' W []) by lia.
+    assert (E : nth_error (nth 0 W []) (S N) = None) by (apply nth_error_None; rewrite HR; lia).
+    rewrite E. reflexivity.
+Qed.
+
+Lemma train_cell_m_ok N p W i j : shape N W -> (i < N)%nat -> (j < N)%nat ->
+  (i < length p)%nat -> (j < length p)%nat ->
+  train_cell_m p W i j = Ok (train_cell p W i j) /\ shape N (train_cell p W i j).
+Proof.
+  intros HS Hi Hj Hip Hjp. split; [|apply (train_cell_spec N p W i j HS Hi Hj)].
+  unfold train_cell_m, train_cell. destruct (i =? j)%nat.
+  - apply (mset_py_ok N); assumption.
+  - rewrite (py_get_nat p i 0 Hip), (py_get_nat p j 0 Hjp). cbn [bind]. apply (mset_py_ok N); assumption.
+Qed.
+Lemma train_cell_m_fail N p W : shape N W -> (N < length p)%nat -> train_cell_m p W 0 N = Raise IndexError.
+Proof.
+  intros HS HL. unfold train_cell_m. destruct (0 =? N)%nat.
+  - apply (mset_py_fail N); exact HS.
+  - rewrite (py_get_nat p 0 0) by lia. rewrite (py_get_nat p N 0 HL). cbn [bind]. apply (mset_py_fail N); exact HS.
+Qed.
+
+Lemma train_pattern_m_ok N W p : shape N W -> (length p <= N)%nat ->
+  train_pattern_m W p = Ok (train_pattern W p) /\ shape N (train_pattern W p).
+Proof.
+  intros HS HL. unfold train_pattern_m, train_pattern.
+  apply (for_res_ok (shape N)); [|exact HS]. intros W1 i HS1 Hi. apply in_seq in Hi.
+  apply (for_res_ok (shape N)); [|exact HS1]. intros W2 j HS2 Hj. apply in_seq in Hj.
+  apply (train_cell_m_ok N); try assumption; lia.
+Qed.
+Lemma train_pattern_m_fail N W p : shape N W -> (N < length p)%nat -> train_pattern_m W p = Raise IndexError.
+Proof.
+  intros HS HL. unfold train_pattern_m.
+  (* row i = 0: columns 0 .. N-1 succeed, column N raises *)
+  assert (Hrow : for_res (fun W2 j => train_cell_m p W2 0 j) (seq 0 (length p)) W = Raise IndexError).
+  { replace (length p) with (N + S (length p - N - 1))%nat at 1 by lia.
+    rewrite seq_app, for_res_app. cbn [seq for_res Nat.add].
+    destruct (for_res_ok (shape N) (fun W2 j => train_cell_m p W2 0 j) (fun W2 j => train_cell p W2 0%nat j) (seq 0 N)) with (a := W) as [E HS1].
+    { intros W2 j HS2 Hj. apply in_seq in Hj. apply (train_cell_m_ok N); try assumption; lia. }
+    { exact HS. }
+    rewrite E. cbn [bind]. rewrite (train_cell_m_fail N p _ HS1) by lia. reflexivity. }
+  set (F := fun W1 i => for_res (fun W2 j => train_cell_m p W2 i j) (seq 0 (length p)) W1) in *.
+  replace (seq 0 (length p)) with (0%nat :: seq 1 (length p - 1)).
+  2:{ destruct (length p) as [|L]; [lia|]. cbn [seq]. rewrite Nat.sub_succ, Nat.sub_0_r. reflexivity. }
+  cbn [for_res]. unfold F at 1. rewrite Hrow. reflexivity.
+Qed.
+
+Lemma train_patterns_m N P : forall W, shape N W ->
+  for_res train_pattern_m P W =
+  if forallb (fun p => (length p <=? N)%nat) P then Ok (fold_left train_pattern P W) else Raise IndexError.
+Proof.
+  induction P as [|p P IH]; intros W HS; [reflexivity|].
+  cbn [for_res forallb fold_left]. destruct (length p <=? N)%nat eqn:E.
+  - apply Nat.leb_le in E. destruct (train_pattern_m_ok N W p HS E) as [E1 HS1]. rewrite E1. cbn [bind andb].
+    apply IH. exact HS1.
+  - apply Nat.leb_gt in E. rewrite (train_pattern_m_fail N W p HS E). reflexivity.
+Qed.
+
+(* the statement-by-statement loops and the pre-checked fold are the same function: same W or same exception *)
+Theorem train_loop_eq : forall P, train_loop P = train P.
+Proof.
+  intros [|p0 P]; [reflexivity|]. unfold train_loop, train.
+  change (py_get (p0 :: P) 0) with (Ok p0 : res (list Z)). cbn [bind].
+  apply train_patterns_m. apply shape_zeros.
+Qed.
+
 (* ------------------------------------------------------------------ finite sums *)
 Lemma Zsum_ext f g n : (forall i, (i < n)%nat -> f i = g i) -> Zsum f n = Zsum g n.
 Proof. induction n as [|n IH]; intros H; cbn; [reflexivity|]. rewrite IH, H by (intros; try apply H; lia). reflexivity. Qed.
@@ -667,6 +774,50 @@ Proof.
   destruct (iter_steps stp n x1 nxt (S t)) as [x2 rest]. cbn [snd length] in *. now rewrite IH.
 Qed.
 
+(* ---- facts about trajectories that need no symmetry / bipolarity ---- *)
+Lemma length_trajectory W cs : forall s, length (trajectory W s cs) = S (length cs).
+Proof. induction cs as [|c cs IH]; intros s; [reflexivity|]. cbn [trajectory length]. now rewrite IH. Qed.
+Lemma trajectory_head W cs s d : nth 0 (trajectory W s cs) d = s.
+Proof. destruct cs; reflexivity. Qed.
+Lemma trajectory_lengths N W cs : forall s, length s = N -> Forall (fun row => length row = N) (trajectory W s cs).
+Proof.
+  induction cs as [|c cs IH]; intros s HL; cbn [trajectory]; constructor; try assumption; [constructor|].
+  apply IH. rewrite length_hop_update. exact HL.
+Qed.
+(* row i+1 is row i with the i-th scheduled cell updated *)
+Lemma trajectory_succ W cs : forall s i, (i < length cs)%nat ->
+  nth (S i) (trajectory W s cs) [] = hop_update W (nth i (trajectory W s cs) []) (nth i cs 0%nat).
+Proof.
+  induction cs as [|c cs IH]; intros s i Hi; [cbn in Hi; lia|].
+  cbn [trajectory]. destruct i as [|i].
+  - cbn [nth]. apply trajectory_head.
+  - cbn [nth]. apply IH. cbn in Hi. lia.
+Qed.
+(* no call of _rule along a trajectory raises, and its value is what the next row holds *)
+Lemma trajectory_rule_ok r W cs s : let N := (2 * r + 1)%nat in
+  shape N W -> length s = N -> Forall (fun c => (c < N)%nat) cs ->
+  forall i, (i < length cs)%nat ->
+    let c := nth i cs 0%nat in
+    let row := nth i (trajectory W s cs) [] in
+    hopfield_rule W r (ring_nbhd row c r) c = Ok (nth c (nth (S i) (trajectory W s cs) []) 0).
+Proof.
+  intros N HS HL Hcs i Hi c row.
+  assert (Hc : (c < N)%nat) by (rewrite Forall_forall in Hcs; apply Hcs; apply nth_In; exact Hi).
+  assert (Hrow : length row = N).
+  { pose proof (trajectory_lengths N W cs s HL) as H. rewrite Forall_forall in H. apply H. apply nth_In.
+    rewrite length_trajectory. lia. }
+  rewrite trajectory_succ by exact Hi. fold c row.
+  destruct (hopfield_update r W row c HS Hrow Hc) as [E _]. rewrite E. f_equal.
+  unfold hop_update, upd_list. rewrite nth_upd_same by lia. reflexivity.
+Qed.
+(* a fixed point of every single-cell update stays put *)
+Lemma trajectory_fixed N W q cs : (forall c, (c < N)%nat -> hop_update W q c = q) ->
+  Forall (fun c => (c < N)%nat) cs -> trajectory W q cs = repeat q (S (length cs)).
+Proof.
+  intros Hfix Hcs. induction Hcs as [|c cs Hc Hcs IH]; [reflexivity|].
+  cbn [trajectory length]. rewrite (Hfix c Hc), IH. reflexivity.
+Qed.
+
 Section Compose.
   Variable r : nat.
   Variable W : list (list Z).
@@ -687,6 +838,8 @@ Section Compose.
     | 0%nat => []
     | S n' => sched x :: sched_cells n' (fst (step x s t)) (snd (step x s t)) (S t)
     end.
+  Lemma length_sched_cells : forall n x s t, length (sched_cells n x s t) = n.
+  Proof. induction n as [|n IH]; intros x s t; [reflexivity|]. cbn [sched_cells length]. now rewrite IH. Qed.
 
   (* hopfield_step: one evolution step changes only the scheduled cell, to +1 iff V >= 0 *)
   Theorem hopfield_step : forall x s t, Inv x -> length s = N ->
@@ -711,46 +864,65 @@ Section Compose.
     split; [|constructor; assumption]. f_equal. rewrite <- E. exact IH1.
   Qed.
 
-  (* energy never increases along the evolution, whatever the schedule *)
-  Theorem evolve_energy : forall T x0 s x rows, wsym N W -> wdiag N W ->
-    Inv x0 -> length s = N -> bipolar s ->
-    evolve_fixed [] step x0 [s] T = Ok (x, rows) ->
-    length rows = T /\
-    nonincreasing (map (energy2 W) rows) /\
-    Forall (fun row => length row = N /\ bipolar row) rows /\
-    exists cs, Forall (fun c => (c < N)%nat) cs /\ rows = trajectory W s cs.
+  (* TOTALITY and the schedule by name: for every T >= 1 the evolution returns, its rows are the trajectory
+     of the Hopfield updates of exactly the scheduled cells cs = sched_cells (T-1) x0 s 1 (in this order), and
+     no call of _rule raises.  No symmetry of W and no bipolarity needed. *)
+  Theorem evolve_total : forall T x0 s, (1 <= T)%nat -> Inv x0 -> length s = N ->
+    let cs := sched_cells (T - 1) x0 s 1 in
+    let rows := trajectory W s cs in
+    (exists x, evolve_fixed [] step x0 [s] T = Ok (x, rows)) /\
+    length cs = (T - 1)%nat /\ Forall (fun c => (c < N)%nat) cs /\ length rows = T /\
+    Forall (fun row => length row = N) rows /\
+    forall i, (i < T - 1)%nat ->
+      hopfield_rule W r (ring_nbhd (nth i rows []) (nth i cs 0%nat) r) (nth i cs 0%nat)
+      = Ok (nth (nth i cs 0%nat) (nth (S i) rows []) 0).
   Proof.
-    intros T x0 s x rows HSy HD Hx HL Hb Hev. destruct T as [|k]; [discriminate|].
-    unfold evolve_fixed in Hev. cbn [last] in Hev.
-    destruct (iter_trajectory k x0 s 1%nat Hx HL) as [Etr Hcs].
-    pose proof (iter_steps_length step k x0 s 1%nat) as Hlen.
-    destruct (iter_steps step k x0 s 1%nat) as [x' rs]. cbn [snd] in *.
-    injection Hev as <- <-. cbn [app].
-    destruct (energy_descent_seq N W _ s HSy HD HL Hb Hcs) as [Hn [Hall _]].
-    rewrite Etr. split; [rewrite <- Etr; cbn [length]; now rewrite Hlen|].
-    split; [exact Hn|]. split; [exact Hall|]. eexists. split; [exact Hcs|reflexivity].
+    intros T x0 s HT Hx HL. destruct T as [|k]; [lia|].
+    replace (S k - 1)%nat with k by lia. intros cs rows.
+    destruct (iter_trajectory k x0 s 1%nat Hx HL) as [Etr Hcs]. fold cs in Etr, Hcs. fold rows in Etr.
+    assert (Hlc : length cs = k) by apply length_sched_cells.
+    split.
+    { unfold evolve_fixed. cbn [last]. destruct (iter_steps step k x0 s 1%nat) as [x' rs]. cbn [snd] in Etr.
+      exists x'. cbn [app]. rewrite Etr. reflexivity. }
+    split; [exact Hlc|]. split; [exact Hcs|].
+    split; [unfold rows; rewrite length_trajectory, Hlc; reflexivity|].
+    split; [apply trajectory_lengths; exact HL|].
+    intros i Hi. apply (trajectory_rule_ok r W cs s HS HL Hcs). lia.
+  Qed.
+
+  (* energy never increases along the evolution, whatever the schedule *)
+  Theorem evolve_energy : forall T x0 s, (1 <= T)%nat -> wsym N W -> wdiag N W ->
+    Inv x0 -> length s = N -> bipolar s ->
+    let cs := sched_cells (T - 1) x0 s 1 in
+    let rows := trajectory W s cs in
+    (exists x, evolve_fixed [] step x0 [s] T = Ok (x, rows)) /\
+    length rows = T /\ Forall (fun c => (c < N)%nat) cs /\
+    nonincreasing (map (energy2 W) rows) /\
+    Forall (fun row => length row = N /\ bipolar row) rows.
+  Proof.
+    intros T x0 s HT HSy HD Hx HL Hb cs rows.
+    destruct (evolve_total T x0 s HT Hx HL) as (Hev & _ & Hcs & Hlen & _). fold cs in Hev, Hcs, Hlen. fold rows in Hev, Hlen.
+    destruct (energy_descent_seq N W cs s HSy HD HL Hb Hcs) as [Hn [Hall _]].
+    split; [exact Hev|]. split; [exact Hlen|]. split; [exact Hcs|]. split; [exact Hn|exact Hall].
   Qed.
 
   (* a single stored pattern and its negation are fixed points of the evolution *)
-  Theorem evolve_stored_fixed : forall T x0 p x rows, (1 <= r)%nat ->
+  Theorem evolve_stored_fixed : forall T x0 p, (1 <= T)%nat -> (1 <= r)%nat ->
     train [p] = Ok W -> length p = N -> bipolar p -> Inv x0 ->
-    (evolve_fixed [] step x0 [p] T = Ok (x, rows) -> Forall (fun row => row = p) rows) /\
-    (evolve_fixed [] step x0 [map Z.opp p] T = Ok (x, rows) -> Forall (fun row => row = map Z.opp p) rows).
+    (exists x, evolve_fixed [] step x0 [p] T = Ok (x, repeat p T)) /\
+    (exists x, evolve_fixed [] step x0 [map Z.opp p] T = Ok (x, repeat (map Z.opp p) T)).
   Proof.
-    intros T x0 p x rows Hr HT HL Hb Hx.
-    assert (G : forall q, (forall c, (c < N)%nat -> hop_update W q c = q) -> length q = N ->
-                forall n x1 t, Inv x1 -> Forall (fun row => row = q) (snd (iter_steps step n x1 q t))).
-    { intros q Hfix HLq. induction n as [|n IH]; intros x1 t Hx1; [constructor|]. cbn [iter_steps].
-      destruct (hopfield_step x1 q t Hx1 HLq) as [E [Hc Hi]]. rewrite (Hfix _ Hc) in E.
-      destruct (step x1 q t) as [x2 nxt]. cbn [fst snd] in *. subst nxt.
-      specialize (IH x2 (S t) Hi). destruct (iter_steps step n x2 q (S t)) as [x3 rest]. cbn [snd] in *.
-      constructor; [reflexivity|exact IH]. }
-    split; intros Hev; (destruct T as [|k]; [discriminate|]); unfold evolve_fixed in Hev; cbn [last] in Hev.
-    - specialize (G p (fun c Hc => proj1 (stored_fixed N p W c ltac:(lia) HL Hb HT Hc)) HL k x0 1%nat Hx).
-      destruct (iter_steps step k x0 p 1%nat) as [x' rs]. injection Hev as <- <-. constructor; [reflexivity|exact G].
-    - specialize (G (map Z.opp p) (fun c Hc => proj2 (stored_fixed N p W c ltac:(lia) HL Hb HT Hc))
-                    ltac:(rewrite map_length; exact HL) k x0 1%nat Hx).
-      destruct (iter_steps step k x0 (map Z.opp p) 1%nat) as [x' rs]. injection Hev as <- <-. constructor; [reflexivity|exact G].
+    intros T x0 p HT Hr HTr HL Hb Hx.
+    assert (HLo : length (map Z.opp p) = N) by (rewrite map_length; exact HL).
+    destruct (evolve_total T x0 p HT Hx HL) as ([x1 E1] & Hl1 & Hc1 & _).
+    destruct (evolve_total T x0 (map Z.opp p) HT Hx HLo) as ([x2 E2] & Hl2 & Hc2 & _).
+    split.
+    - exists x1. rewrite E1. f_equal. f_equal.
+      rewrite (trajectory_fixed N W p _ (fun c Hc => proj1 (stored_fixed N p W c ltac:(lia) HL Hb HTr Hc)) Hc1).
+      rewrite Hl1. f_equal. lia.
+    - exists x2. rewrite E2. f_equal. f_equal.
+      rewrite (trajectory_fixed N W (map Z.opp p) _ (fun c Hc => proj2 (stored_fixed N p W c ltac:(lia) HL Hb HTr Hc)) Hc2).
+      rewrite Hl2. f_equal. lia.
   Qed.
 End Compose.
 
@@ -768,18 +940,33 @@ Proof.
   - reflexivity.
 Qed.
 
-Theorem hop_evolve_energy : forall r W order T s k rows, let N := (2 * r + 1)%nat in
-  shape N W -> wsym N W -> wdiag N W ->
+(* the schedule of the direct model is the order itself, cyclically *)
+Lemma sched_cells_direct r W order : order <> [] -> forall n k s t, (k < length order)%nat ->
+  sched_cells nat (sched_step W r order) (fun k => nth k order 0%nat) n k s t
+  = map (fun i => nth ((k + i) mod length order) order 0%nat) (seq 0 n).
+Proof.
+  intros Hne. assert (HL : (0 < length order)%nat) by (destruct order; [congruence|cbn; lia]).
+  induction n as [|n IH]; intros k s t Hk; [reflexivity|].
+  cbn [sched_cells]. rewrite <- cons_seq, <- seq_shift, map_cons, map_map.
+  f_equal; [rewrite Nat.add_0_r, Nat.mod_small by exact Hk; reflexivity|].
+  unfold sched_step at 1 2. cbn [fst snd]. rewrite IH by (apply Nat.mod_upper_bound; lia).
+  apply map_ext. intros i. f_equal. rewrite Nat.add_mod_idemp_l by lia. f_equal. lia.
+Qed.
+
+Theorem hop_evolve_energy : forall r W order T s, let N := (2 * r + 1)%nat in
+  (1 <= T)%nat -> shape N W -> wsym N W -> wdiag N W ->
   order <> [] -> Forall (fun c => (c < N)%nat) order ->
   length s = N -> bipolar s ->
-  hop_evolve W r order s T = Ok (k, rows) ->
-  length rows = T /\
+  let cs := map (fun i => nth (i mod length order) order 0%nat) (seq 0 (T - 1)) in
+  let rows := trajectory W s cs in
+  (exists k, hop_evolve W r order s T = Ok (k, rows)) /\
+  length rows = T /\ Forall (fun c => (c < N)%nat) cs /\
   nonincreasing (map (energy2 W) rows) /\
-  Forall (fun row => length row = N /\ bipolar row) rows /\
-  exists cs, Forall (fun c => (c < N)%nat) cs /\ rows = trajectory W s cs.
+  Forall (fun row => length row = N /\ bipolar row) rows.
 Proof.
-  intros r W order T s k rows N HS HSy HD Hne Hall HL Hb Hev.
-  apply (evolve_energy r W HS nat (sched_step W r order) (fun k => (k < length order)%nat) (fun k => nth k order 0%nat)
-           (sched_step_one_cell r W order Hne Hall) T 0%nat s k rows HSy HD); try assumption.
-  destruct order; [congruence|cbn; lia].
+  intros r W order T s N HT HS HSy HD Hne Hall HL Hb.
+  assert (H0 : (0 < length order)%nat) by (destruct order; [congruence|cbn; lia]).
+  pose proof (evolve_energy r W HS nat (sched_step W r order) (fun k => (k < length order)%nat) (fun k => nth k order 0%nat)
+           (sched_step_one_cell r W order Hne Hall) T 0%nat s HT HSy HD H0 HL Hb) as H.
+  rewrite (sched_cells_direct r W order Hne (T - 1) 0 s 1 H0) in H. exact H.
 Qed.
